@@ -11,6 +11,7 @@
 From Coq Require Import QArith Qminmax List Arith.
 Require Import SP.Model.Ledger SP.Proofs.LedgerProofs SP.Model.Sched SP.Proofs.SchedWalk SP.Proofs.SchedFinal.
 Require Import SP.Model.Alap SP.Proofs.AlapProofs.
+Require Import SP.Model.Ledger SP.Model.SubSlot SP.Proofs.SubSlotProofs.
 Import ListNotations.
 
 Theorem C03_exact_slots : forall p t f e,
@@ -35,3 +36,14 @@ Theorem C03_alap : forall p t f e, alap_leaf_dates p t = Some (f, e) -> t_need (
              filter (fun x => Nat.eqb (b_task x) t) (alap_bookings p) = concat (map (block p t) ss).
 Proof. exact alap_exact_slots. Qed.
 Print Assumptions C03_alap.
+
+(* ---- second granularity (Model/SubSlot.v: arbitrary efforts, efficiencies and gaps, tasks that begin and end
+   inside slots and share them; one resource per task, no limits), for every well-formed project
+   (wf: slot length > 0, efficiencies > 0, a task with work has a positive effort) *)
+(* Booked: the task has exactly one entry (t, x) in each booked slot and none elsewhere; every booked slot is
+   working time and overlaps [start, end]; effort - 9/2500000 <= (sum of the x) * efficiency <= effort *)
+Theorem C03_subslot : forall p, wf p -> forall t f e,
+  sleaf_dates (sschedule p) t = Some (f, e) -> s_mile (stask_of p t) = false ->
+  exists bs, Booked p (sschedule p) t f e bs.
+Proof. exact subslot_effort. Qed.
+Print Assumptions C03_subslot.
